@@ -222,7 +222,11 @@ func runC11(c *Ctx) {
 				if dc, ok := stripConv(ci.Common().Args[1]).(*ssa.Call); ok && calleeID(dc) == cp+".(*directoryCache).cachePath" {
 					dstOK = true
 				}
-				c.verdict(c.fnKey(f)+":Rename", i.Pos(), srcOK && dstOK && root == cp+".(*directoryCache).Add", "publish = rename(temp file → cachePath(key)) in the commit function", "rename does not publish the temp file under cachePath(key) from the commit function")
+				inCommit := root == cp+".(*directoryCache).Add"
+				if addFn := c.fn(cp, "(*directoryCache).Add"); addFn != nil && !inCommit {
+					inCommit = c.ownedBy(enclosingRoot(f), addFn) // the commit function's body moved into a helper of Add
+				}
+				c.verdict(c.fnKey(f)+":Rename", i.Pos(), srcOK && dstOK && inCommit, "publish = rename(temp file → cachePath(key)) in the commit function", "rename does not publish the temp file under cachePath(key) from the commit function")
 			case "os.Open":
 				good := false
 				if dc, ok := stripConv(ci.Common().Args[0]).(*ssa.Call); ok && calleeID(dc) == cp+".(*directoryCache).cachePath" && isParamish(dc.Call.Args[1]) {
